@@ -7,7 +7,7 @@ import Dawn.Proofs.BuildPath
 # C01, C02, C03, C13, C14 — the incremental engine
 
 Property theorems only. The model (`Dawn/Model/Build.lean`) follows `runTarget.Evaluate`, the two `upToDate` functions,
-`saveTargetInfo`, `dirSum`, `targetInfoPath` and `GC` as they are after the repairs D8, D9, D18; it is tied to the
+`saveTargetInfo`, `dirSum`, `targetInfoPath` and `GC` as they are after the repairs D8, D9, D18, D22, D28; it is tied to the
 source by `Dawn/Ties/Build.lean` and by the correspondence stream `build.history` (every operation of generated
 histories, real engine in a fresh process vs `drv_build`).
 
@@ -15,7 +15,11 @@ Standing hypotheses, all explicit:
 * `Fixed P`: the repaired engine (`stampRuns`, `marker`) and an injective `sha256` (`SumInj`).
 * `Conforms S t`: the tree a load sees is well declared — a body reads and writes what its function's fingerprint
   determines, what it reads is declared as a dependency, every generated path has one owner, a source whose file a
-  live target generates depends on that target (`link`).
+  live target generates depends on that target (`link`). The gap this leaves: a body that reads *whichever sources it
+  has* (`self.sources` of a `glob`) reads a set its code does not determine, so the general C01 theorems do not speak
+  about a dependency that goes away with the code unchanged. That case is D28: `C01_removed_dependency_counterexample`
+  and the example after it are the model's witnesses (parameter `depCount`), the stream `build.history` with glob
+  targets and `rmsrc`/`delete` edits is the test.
 * `Nodup ord ∧ Sorted t [] ord`: the runner hands each target to `Evaluate` once, after its dependencies (C04).
 * `Reach P S R w`: `w` is the persisted state after ANY finite history of edits, real builds of any target lists with any
   failing bodies, dry runs, builds or loads killed at any hook point, and garbage collections
@@ -144,17 +148,53 @@ theorem C01_dir_rename_counterexample :
       b3.w.files 20 ≠ (runBuild P exTree exOpts [1, 2, 3] { w2 with recs := fun _ => none }).w.files 20 := by
   decide
 
+/-- D28: `t = 3` reads whatever sources it has (a `glob`, `self.sources`): first the sources `1` and `4`, then — file 11
+deleted, same code, same environment — the source `1` alone. -/
+def exGlobA : Tree := ⟨fun l => match l with
+  | 1 => some ⟨.src, [], [], [], false, 0, 10⟩
+  | 4 => some ⟨.src, [], [], [], false, 0, 11⟩
+  | 3 => some ⟨.fn, [1, 4], [1, 4], [21], false, 101, 0⟩
+  | _ => none, [1, 4, 3]⟩
+def exGlobB : Tree := ⟨fun l => match l with
+  | 1 => some ⟨.src, [], [], [], false, 0, 10⟩
+  | 3 => some ⟨.fn, [1], [1], [21], false, 101, 0⟩
+  | _ => none, [1, 3]⟩
+def exGlobW0 : World := ⟨fun p => if p = 10 then .file 5 else if p = 11 then .file 7 else .missing, fun _ => none, 0, .absent⟩
+
+/-- D28: before the repair a dependency that went away was not noticed: every remaining dependency is listed
+unchanged, so the target is skipped, and its output still reflects the deleted file. -/
+theorem C01_removed_dependency_counterexample :
+    let P : Params := { exP with depCount := false }
+    let w1 := (runBuild P exGlobA exOpts [1, 4, 3] exGlobW0).w
+    let w2 : World := { w1 with files := upd w1.files 11 .missing }           -- delete the second source
+    let b3 := runBuild P exGlobB exOpts [1, 3] w2
+    succeeded b3 3 = true ∧ b3.execs = [] ∧
+      b3.w.files 21 ≠ (runBuild P exGlobB exOpts [1, 3] { w2 with recs := fun _ => none }).w.files 21 := by
+  decide
+
+/-- the repaired engine on the D28 history: the record lists one dependency more than the target has, the target
+re-runs, the output is the clean build's; and the build after that is quiet again -/
+example :
+    let w1 := (runBuild exP exGlobA exOpts [1, 4, 3] exGlobW0).w
+    let w2 : World := { w1 with files := upd w1.files 11 .missing }
+    let b3 := runBuild exP exGlobB exOpts [1, 3] w2
+    b3.execs = [3] ∧ b3.w.files 21 = (runBuild exP exGlobB exOpts [1, 3] { w2 with recs := fun _ => none }).w.files 21 ∧
+      (runBuild exP exGlobB exOpts [1, 3] b3.w).execs = [] := by
+  decide
+
 /-! ## C02 — no spurious rebuilds -/
 
-/-- C02, the skip decision: a target whose record is not marked, whose own `upToDate` test passes, and whose every
-dependency was visited unchanged and is listed with its present stamp, is skipped (no body, no `Evaluating`). -/
+/-- C02, the skip decision: a target whose record is not marked, whose own `upToDate` test passes, whose every
+dependency was visited unchanged and is listed with its present stamp, and whose record lists nothing besides (`hlen`:
+as many entries as dependencies — a dependency that went away is a change, D28), is skipped (no body, no `Evaluating`). -/
 theorem C02_no_spurious {P : Params} {t : Tree} {o : Opts} {s : BSt} {l : Label} {d : Def} (hd : t.defs l = some d)
     (hal : o.always = false)
     (hdeps : ∀ y ∈ depsOf t l d, ∃ m, s.memo y = some m ∧ m.ok = true ∧ m.changed = false ∧
       (loadedInfo s.w l d).deps.lookup y = some m.data)
+    (hlen : (loadedInfo s.w l d).deps.length = (depsOf t l d).length)
     (hup : upToDate P s.w d (loadedInfo s.w l d) = true) (hrr : (loadedInfo s.w l d).rerun = false) :
     (visit P t o s l).execs = s.execs ∧ (visit P t o s l).w = s.w ∧ (visit P t o s l).evs = .upToDate l :: s.evs := by
-  simp [visit, hd, plan_skip_of hal hdeps hup hrr]
+  simp [visit, hd, plan_skip_of hal hdeps (by simp [hlen]) hup hrr]
 
 /-- C02, whole builds: rebuilding an unchanged tree executes nothing. After a real build in which every visited target
 succeeded — from ANY earlier state — a second build of any dependency-ordered sub-list, in a fresh process (fresh
@@ -230,6 +270,22 @@ example : Covers exTree ⟨fun l => if l = 3 then some ⟨.fn, [2], [2], [21], f
     · simp at hx; subst hx
       simp [exTree, exDefs] at hdx; subst hdx
       exact ⟨fun _ => Or.inl rfl, fun hk => by cases hk⟩
+
+/-- C02, across process restarts: the label under which a dependency's stamp is persisted is read back unchanged by a
+fresh load, whatever bytes the label consists of (file names need not be valid UTF-8, and JSON replaces invalid bytes):
+the escaping of `depStamps` is reversible, so the lookup `info.Dependencies[label]` of `Evaluate` finds what the
+previous process stored, and two different labels never share a key. (D27: without the escaping the key of a name
+that is not valid UTF-8 did not survive, and its consumer re-executed on every build.) -/
+theorem C02_dep_keys_roundtrip (s : List KeyItem) (h : ∀ c, KeyItem.ch c ∈ s → c ≠ 0xFFFD) : unescapeKey (escapeKey s) = s :=
+  unescapeKey_escapeKey s h
+
+theorem C02_dep_keys_injective {s t : List KeyItem} (hs : ∀ c, KeyItem.ch c ∈ s → c ≠ 0xFFFD) (ht : ∀ c, KeyItem.ch c ∈ t → c ≠ 0xFFFD)
+    (h : escapeKey s = escapeKey t) : s = t := escapeKey_injective hs ht h
+
+/-- `caf\xe9.txt` and `caf\xff.txt` (lossy JSON would store both as `caf�.txt`), and a genuine U+FFFD followed by `e9` -/
+example : escapeKey [.ch 99, .raw 0xe9] ≠ escapeKey [.ch 99, .raw 0xff] ∧
+    unescapeKey (escapeKey [.repl, .ch 101, .ch 57]) = [.repl, .ch 101, .ch 57] ∧
+    escapeKey [.raw 0xe9] = [0xFFFD, 101, 57] := by decide
 
 /-! ## C03 — failed and interrupted builds are recoverable -/
 
